@@ -74,6 +74,9 @@ func c10Line(work, line string, lineNo, slots int) {
 		nbrEnd, c1End                      = 0, 0.0
 		haveEnd                            bool
 		days, regenUnexpl, dsummUnexpl     int
+		dsummEnd, umsEnd                   float64
+		overnight                          int
+		overnightFirst                     []jobj
 		nitroOther                         int
 	)
 	hermes.VerifProbe = func(stage string, zeit, subd int, wdt float64, g *hermes.GlobalVarsMain, w *hermes.WaterSharedVars, n *hermes.NitroSharedVars) {
@@ -103,6 +106,22 @@ func c10Line(work, line string, lineNo, slots int) {
 				nbrEnd = 1
 			}
 			days++
+			// between the end of a day and the start of the next one nothing may touch the fertiliser sums (applied mineral N
+			// DSUMM, released part UMS); the only documented reset is a measurement day (run.go:476-487)
+			if haveEnd && (!c10same(g.DSUMM, dsummEnd) || !c10same(g.UMS, umsEnd)) {
+				messToday := false
+				for _, mz := range g.MESS {
+					if mz == zeit && mz != 0 {
+						messToday = true
+					}
+				}
+				if !messToday {
+					overnight++
+					if len(overnightFirst) < 3 {
+						overnightFirst = append(overnightFirst, jobj{"zeit": zeit, "dsumm": []string{hx(dsummEnd), hx(g.DSUMM)}, "ums": []string{hx(umsEnd), hx(g.UMS)}})
+					}
+				}
+			}
 			// irrigation block (run.go:454-468) ran since the last "dayend"
 			fired := g.NBR != nbrEnd
 			regenPre, regenPost := g.REGENdaily, g.REGEN[g.TAG.Index]
@@ -184,12 +203,13 @@ func c10Line(work, line string, lineNo, slots int) {
 			}
 		case "dayend":
 			nbrEnd, c1End, haveEnd = g.NBR, g.C1[0], true
+			dsummEnd, umsEnd = g.DSUMM, g.UMS
 		}
 	}
 	res := runProject(work, splitArgs(line))
 	hermes.VerifProbe = nil
 	emit(jobj{"k": "run", "line": lineNo, "success": res.Success, "err": res.Err, "days": days, "substeps_gt1": nitroOther,
-		"regen_unexplained": regenUnexpl, "dsumm_unexplained": dsummUnexpl})
+		"regen_unexplained": regenUnexpl, "dsumm_unexplained": dsummUnexpl, "overnight_changes": overnight, "overnight_first": overnightFirst})
 }
 
 // c10DuengCmd: kernel tie for dueng — every row name of the fertiliser table (plus an unknown name) x
